@@ -357,3 +357,36 @@ Definition mc_init (g : grammar) : mc_state :=
 
 Definition rule_min_costs_m (fuel : nat) (g : grammar) (c : N -> N) : outcome (list N) :=
   mc_loop fuel g c (mc_init g).
+
+(* the same loop, stopping as soon as a pass changes nothing (from where it can
+   only repeat itself, see [mc_run_diverges]) *)
+Inductive mc_result := McDone (l : list N) | McPanic | McDiverges | McFuel.
+
+Fixpoint nlist_eqb (a b : list N) : bool :=
+  match a, b with
+  | [], [] => true
+  | x :: a', y :: b' => N.eqb x y && nlist_eqb a' b'
+  | _, _ => false
+  end.
+Fixpoint blist_eqb (a b : list bool) : bool :=
+  match a, b with
+  | [], [] => true
+  | x :: a', y :: b' => Bool.eqb x y && blist_eqb a' b'
+  | _, _ => false
+  end.
+Definition mc_state_eqb (s t : mc_state) : bool :=
+  nlist_eqb (mc_costs s) (mc_costs t) && blist_eqb (mc_done s) (mc_done t).
+
+Fixpoint mc_run (fuel : nat) (g : grammar) (c : N -> N) (st : mc_state) : mc_result :=
+  match fuel with
+  | O => McFuel
+  | S f => if all_done g st then McDone (mc_costs st)
+           else match mc_pass g c (ridxs g) st with
+                | Done st' => if mc_state_eqb st st' then McDiverges else mc_run f g c st'
+                | Panic => McPanic
+                | OutOfFuel => McFuel
+                end
+  end.
+
+Definition rule_min_costs_run (fuel : nat) (g : grammar) (c : N -> N) : mc_result :=
+  mc_run fuel g c (mc_init g).
